@@ -388,6 +388,7 @@ func matchKnown(ks []*Known, v sim.Violation) *Known {
 type Report struct {
 	Property    string                   `json:"property"`
 	Worker      int                      `json:"worker"`
+	Engine      string                   `json:"engine"`
 	Seed        uint64                   `json:"seed"`
 	Runs        int64                    `json:"runs"`
 	Evals       int64                    `json:"evals"`
@@ -452,7 +453,7 @@ func Main(t *testing.T, env *Env, props map[string]*Prop) {
 	known := loadKnown(os.Getenv("VERIF_KNOWN"), id)
 	maxViol := int(envU("VERIF_MAXVIOL", 1))
 
-	rep := &Report{Property: id, Worker: int(from), Seed: seed, Counters: map[string]int64{}, Features: map[string]int64{}, Strategies: map[string]int64{}}
+	rep := &Report{Property: id, Worker: int(from), Engine: os.Getenv("VERIF_ENGINE"), Seed: seed, Counters: map[string]int64{}, Features: map[string]int64{}, Strategies: map[string]int64{}}
 	hashes := map[string]bool{}
 	nth := map[string]bool{}
 	wdMu.Lock()
